@@ -789,6 +789,24 @@ pub fn boxes_for(id: &str, quick: bool) -> Vec<Box_> {
                 v.push(mk("3 tasks sum_of((T1,J1),(T2,0)) T1{6} J1{2,5} T2{5,7} + sporadic, C<=2", Ana::Fifo, 3, sums(&[6], &[2, 5], &[5, 7]), 2, &[], false));
             }
             v.push(mk("3 tasks T{2,3,7,19} J=0 C<=4", Ana::Fifo, 3, [2u64, 3, 7, 19].iter().map(|t| ArrSpec::Sporadic { t: *t, j: 0 }).collect(), 4, &[], false));
+            // a bursty stream (pairs of simultaneous activations) with propagated jitter next to two
+            // slow tasks: the steps just behind the jitter window carry the worst offset
+            {
+                let tp = |arr: ArrSpec, c: u64| TP { arr, c, segs: vec![c], nps: 1, dl: 0 };
+                v.push(Box_ {
+                    name: "3 tasks from {Jitter(Curve[0,10],5)C3, Jitter(Curve[0,7],3)C2, (25,0)C2, (20,0)C1}".into(),
+                    ana: Ana::Fifo,
+                    ntasks: 3,
+                    per_task: vec![
+                        tp(ArrSpec::Jitter { inner: Box::new(ArrSpec::Curve { dmin: vec![0, 10] }), j: 5 }, 3),
+                        tp(ArrSpec::Jitter { inner: Box::new(ArrSpec::Curve { dmin: vec![0, 7] }), j: 3 }, 2),
+                        tp(ArrSpec::Sporadic { t: 25, j: 0 }, 2),
+                        tp(ArrSpec::Sporadic { t: 20, j: 0 }, 1),
+                    ],
+                    strict_periodic: false,
+                    cap: 2_000_000,
+                });
+            }
             // four and five tasks (aggregates with more than three components)
             if quick {
                 v.push(mk("4 tasks {(5,0),(6,5)} C<=2", Ana::Fifo, 4, vec![ArrSpec::Sporadic { t: 5, j: 0 }, ArrSpec::Sporadic { t: 6, j: 5 }], 2, &[], false));
